@@ -13,8 +13,8 @@ THEOREMS = ["IsoVerif.Props.C13." + t for t in (
 HARNESS = ("hx_arts", {"HX_ENGINE": "arts"})
 DRIVER = "drv_arts"
 # one case = one generated project = two request lines (parse oracle, import oracle)
-CASES = {"quick": 192, "thorough": 9600}
-HOLES = {"quick": 600, "thorough": 40000}
+CASES = {"quick": 192, "thorough": 6000}
+HOLES = {"quick": 600, "thorough": 30000}
 TECHNIQUE = ("Lean 4: a TypeScript lexical-context automaton (code, '…', \"…\", template, //, /* */) and, per hole through which the generators splice user-controlled text into an artifact, the theorem that the "
              "text as embedded stays inside its context and returns the automaton to its state; the path arithmetic of every import template and closure of an artifact plan. Correspondence: engine `holes` "
              "compiles a project with the text in the hole and cuts the embedded text out of the real artifact again (= the model's embedding function); engine `arts` reads every import specifier back from "
